@@ -185,15 +185,31 @@ RECURSIVE HasN(_)
 HasN(items) == \E i \in 1..Len(items) : items[i].t = "n" /\ (items[i].f = "N" \/ HasN(items[i].kids))
 
 \* Bracket runs that are ambiguous wikitext (which "]]" closes what): a disabled link inside
-\* a link or disabled link, an external link whose "]" runs into the "]]" of a link.  The
+\* a link or disabled link, an external link whose "]" runs into the "]]" of a link, two
+\* external links closing together ("]]") somewhere inside a link.  The
 \* encoder pairs brackets leftmost-first there; the model does not predict the rendering of
 \* the frames then, only what the statement demands (Demand below).
 Ambiguous(fs) == \/ \E i, j \in 1..Len(fs) : i < j /\ fs[i] \in {"link", "dl"} /\ fs[j] = "dl"
                  \/ \E i \in 1..(Len(fs) - 1) : fs[i] \in {"link", "dl"} /\ fs[i + 1] = "ext"
-\* must the quoted payload be in the output?  Not where the library's template-loop error
-\* replaces a call of T1 that encloses it (r = NRes(fs, o), handed in evaluated; where the
-\* model does not predict the frames: not with more than one T1 around the payload)
-Demand(fs, r) == IF Ambiguous(fs) THEN Cardinality({ i \in 1..Len(fs) : fs[i] = "T1" }) <= 1 ELSE HasN(r)
+                 \/ \E i, k \in 1..(Len(fs) - 1) : i < k /\ fs[i] \in {"link", "dl"} /\ fs[k] = "ext" /\ fs[k + 1] = "ext"
+\* Order of the encoder: links, external links and argument references are encoded in one
+\* inner loop, in this order.  A link whose text holds an external link (not adjacent) cannot be
+\* matched before that external link is encoded - and in the same round an argument reference
+\* around the link IS matched (its text only must be free of braces), takes the still unencoded
+\* link as text and is split at the link's "|": {{{p|[[a|p[https://x.y X]q]]}}} has the default
+\* value "[[a" (whatever X is; nothing to do with nowiki).  Over-approximated by: an argument
+\* reference with an external link below it, a link between them and no brace construct between.
+ArgSwallows(fs, A) == \E i, k \in 1..Len(fs) : /\ i < k /\ fs[i] \in A /\ fs[k] = "ext"
+                                              /\ \E j \in (i + 1)..(k - 1) : fs[j] \in {"link", "dl"}
+                                              /\ \A x \in (i + 1)..(k - 1) : fs[x] \in {"text", "link", "dl", "ext"}
+\* the model predicts the whole output / only what the statement demands
+Exact(fs) == ~Ambiguous(fs) /\ ~ArgSwallows(fs, {"da", "ad"})
+\* must the quoted payload be in the output?  Where the model predicts the output: unless the
+\* library's template-loop error replaces a call of T1 that encloses it (r = NRes(fs, o), handed
+\* in evaluated).  Where it does not: only if no brace construct is around (with mis-paired
+\* brackets a brace construct may be read as a call of a missing template, or be split at a
+\* "|", and then drops its arguments - whatever they are)
+Demand(fs, r) == IF Exact(fs) THEN HasN(r) ELSE \A i \in 1..Len(fs) : fs[i] \in {"text", "link", "ext", "dl"}
 
 \* the universe: "uc" transforms its argument, so it is only used directly around the nowiki;
 \* options are varied only where some frame of the context looks at them
